@@ -525,19 +525,26 @@ def entry_guards(ctx):
 def clocks(ctx, guard_only=False):
     fe = ctx.fn("framing", "Framer.enter")
     V = FuncView(ctx, fe)
-    t = V.need(V.tests(lambda t: dotted(t) == "enters"), "`if enters:` in Framer.enter")
-    rt = V.need(V.call_nodes("self.restartTimer"), "restartTimer()")
-    rc = V.need(V.call_nodes("self.restartCounter"), "restartCounter()")
+    t = V.tests(lambda t: dotted(t) == "enters")
+    rt = V.call_nodes("self.restartTimer")
+    rc = V.call_nodes("self.restartCounter")
     lp = V.need(loops_over(V, "enters"), "loop over enters")
-    ok = V.dominated_by_edge(rt + rc, t[0], "T") and V.dominated(lp, t)
-    ok = ok and all(n.id not in V.reach(lp[0]) for n in rt + rc)
-    tsucc = [b for b, lab in V.cfg.succ[t[0].id] if lab == "T"]
-    ok = ok and bool(tsucc) and V.cfg.always_reaches([t[0].id], V.ids(rt) + [b for b, lab in V.cfg.succ[t[0].id] if lab == "F"],
-                                                     ends=[lp[0].id]) \
-        and V.cfg.always_reaches([t[0].id], V.ids(rc) + [b for b, lab in V.cfg.succ[t[0].id] if lab == "F"], ends=[lp[0].id])
-    ctx.check(ok, "T4-clocks", fe, "if enters: restartTimer(); restartCounter() before entering",
-              "elapsed/recurred restart exactly when the outline changes (non-empty enters), and a refused "
-              "transition leaves them unchanged")
+    if not (t and rt and rc):
+        ctx.bad("T4-clocks", fe, "Framer.enter does not restart timer and counter under `if enters`",
+                "elapsed and recurred must restart whenever frames are (re-)entered - including a forced re-entry of the "
+                "active frame, which produces non-empty enters without changing the active frame - and must not restart "
+                "when nothing is entered")
+        t = rt = rc = None
+    if t:
+        ok = V.dominated_by_edge(rt + rc, t[0], "T") and V.dominated(lp, t)
+        ok = ok and all(n.id not in V.reach(lp[0]) for n in rt + rc)
+        tsucc = [b for b, lab in V.cfg.succ[t[0].id] if lab == "T"]
+        ok = ok and bool(tsucc) and V.cfg.always_reaches([t[0].id], V.ids(rt) + [b for b, lab in V.cfg.succ[t[0].id] if lab == "F"],
+                                                         ends=[lp[0].id]) \
+            and V.cfg.always_reaches([t[0].id], V.ids(rc) + [b for b, lab in V.cfg.succ[t[0].id] if lab == "F"], ends=[lp[0].id])
+        ctx.check(ok, "T4-clocks", fe, "if enters: restartTimer(); restartCounter() before entering",
+                  "elapsed/recurred restart exactly when the outline changes (non-empty enters), and a refused "
+                  "transition leaves them unchanged")
     callers = {"restartTimer": {FR + "Framer.enter"}, "restartCounter": {FR + "Framer.enter"},
                "updateTimer": {FR + "Framer.segue"}, "updateCounter": {FR + "Framer.segue"}}
     for meth, allowed in callers.items():
@@ -709,7 +716,13 @@ def suspender(ctx):
     sg = S.need(S.call_nodes("aux.segue"), "aux.segue()")
     de = S.need(S.call_nodes("self.deactivate"), "self.deactivate(aux)")
     ch = S.need(S.call_nodes("framer.change"), "framer.change(...)")
-    ra = S.need(S.call_nodes("framer.reactivate"), "framer.reactivate()")
+    ra = S.call_nodes("framer.reactivate")
+    if not ra:
+        ctx.bad("T3-active", sa, "Suspender.action never calls framer.reactivate()",
+                "when the conditional auxiliary completes, the suspended frames must resume by restoring the outline of the "
+                "framer's *active* frame (framer.reactivate()); any other list (e.g. the main frame's own primary outline) "
+                "resumes the wrong frames when the active leaf is not on the main frame's primary chain")
+        return
     nl = S.need(loops_over(S, "needs"), "needs loop")
     # inactive region
     in_first = [t for t in inner if S.dominated_by_edge([t], first, "T")]
